@@ -199,6 +199,7 @@ def units(ck, prog):
     ck.ob("U", "LargePolyConstraint::new:units", bool(scale) and not bad,
           "the pre-evaluated assertion polynomial and its step offset are both expressed in constraint-evaluation-domain units "
           "(the evaluator indexes it with a CE-domain step)", loc=f.loc(), detail="; ".join(bad) if bad else None)
+    shift_direction(ck, prog, f, g)
     # the step offset is derived from the constraint's polynomial offset
     for b, i, s in f.assigns():
         rv = s["rv"]
@@ -211,6 +212,23 @@ def units(ck, prog):
             ck.ob("U", "LargePolyConstraint::new:step_offset", any(n.endswith("BoundaryConstraint::poly_offset") for n in ns)
                   and any(n.endswith("Air::ce_blowup_factor") for n in ns),
                   "step_offset = (first step of the assertion) x (constraint-evaluation blowup)", loc=f.loc(b, i))
+
+
+def shift_direction(ck, prog, f, g):
+    """the pre-evaluated assertion polynomial b(x * g^-a) is the plain evaluation vector read `step_offset` positions EARLIER:
+    value(ce_step) = values[(ce_step - step_offset) mod len]. A constructor that applies the shift once by rotating the vector must
+    rotate it to the RIGHT by the step offset (new[i] = old[i - k]); `rotate_left` reads the polynomial shifted the other way (seed C17-K)."""
+    for b, t in f.calls():
+        cn = callee_name(t) or ""
+        if cn.endswith(("slice::rotate_left", "slice::rotate_right", "VecDeque::rotate_left", "VecDeque::rotate_right")) and len(t["args"]) == 2:
+            w = g.walk(ops=[t["args"][1]], at=(b, T))
+            ns = g.callee_names_in(w)
+            if any(n.endswith("BoundaryConstraint::poly_offset") for n in ns):
+                ok = cn.endswith("rotate_right")
+                ck.ob("U", "LargePolyConstraint::new:shift-direction", ok,
+                      "a shift of the pre-evaluated values by the step offset, applied once by rotation, rotates to the right", loc=f.loc(b, T),
+                      detail=None if ok else "rotate_left by the step offset evaluates b(x * g^(+a)) instead of b(x * g^(-a)) for every large sequence "
+                                             "assertion with a non-zero first step")
 
 
 def folding(ck, prog):
